@@ -33,6 +33,9 @@ ASSUMPTIONS = [
     "UT1-UTC is discontinuous there) - TDB is used instead, by construction",
     "the +-120 s windows around leap seconds are outside the quantifier",
     "EOP configurations per shard: real tables / zero corrections with real leap seconds",
+    "clones: in half of the cases every Date of the labelled run (epoch, argument, maneuver, range ends) first goes "
+    "through pickle / copy.copy / copy.deepcopy, and the epoch may be the one held by a pickled Orbit; the all-UTC "
+    "reference is never cloned",
     "SGP4 orbits are near-Earth (11-15.5 rev/day); KeplerNum: rk4, 60 s, Earth only, |dt| <= 40 min",
     "maneuvers facet: KeplerNum (rk4, 60 s) forward over 15-90 min with 1-2 ImpulsiveMan and an optional "
     "ContinuousMan whose dates carry their own labels; UT1 / TDB burn instants are kept 20 us away from the "
@@ -62,8 +65,58 @@ def lab(us, L):
     return L
 
 
+_CLONE = {"how": "none", "orbit": False}
+
+
+class cloned:
+    """Inside this block (the labelled run, never the all-UTC reference) every Date handed to the library
+    first travels through pickle / copy / deepcopy as drawn for the case, and - if drawn - the epoch is
+    the one held by the pickled Orbit: a clone is the same instant, the result must not change."""
+
+    def __init__(self, case, on=True):
+        self.how = case.get("clone", "none") if on else "none"
+        self.orbit = bool(case.get("clone_orbit")) and on
+
+    def __enter__(self):
+        _CLONE["how"], _CLONE["orbit"] = self.how, self.orbit
+
+    def __exit__(self, *a):
+        _CLONE["how"], _CLONE["orbit"] = "none", False
+
+
+def with_clone(fn):
+    @st.composite
+    def wrapped(draw, shard, tier):
+        case = draw(fn(shard, tier))
+        case["clone"] = draw(gd.clone_modes(none_share=4))
+        case["clone_orbit"] = draw(st.booleans())
+        return case
+
+    return wrapped
+
+
+def clone_classes(case):
+    out = []
+    if case.get("clone", "none") != "none":
+        out.append(f"clone:{case['clone']}")
+        if case.get("clone_orbit"):
+            out.append("orbit-pickled")
+    return out
+
+
+def _maybe_pickled(orb):
+    if _CLONE["orbit"] and _CLONE["how"] != "none":
+        import pickle
+
+        # only the epoch held by the pickled Orbit is taken over: the unpickled Orbit itself is not the same
+        # object in other respects (its Form is an equal copy that `form != TLE` rejects, its coordinates may
+        # move in the last bit) - value semantics of state vectors are C15's, not a matter of time scales
+        orb.date = pickle.loads(pickle.dumps(orb)).date
+    return orb
+
+
 def date_of(us, L):
-    return t3.mk(us, lab(us, L))
+    return gd.clone(t3.mk(us, lab(us, L)), _CLONE["how"])
 
 
 @st.composite
@@ -165,15 +218,15 @@ def tle_orbit(tle, date, propagator):
     from beyond.orbits import Orbit
 
     n = tle["n"] * 2 * math.pi / 86400.0
-    return Orbit([tle["i"], tle["raan"], tle["e"], tle["argp"], tle["M"], n], date, "TLE", "TEME", propagator,
-                 bstar=tle["bstar"], ndot=0.0, ndotdot=0.0, norad_id=25544, cospar_id="1998-067A",
-                 element_nb=999, revolutions=1234, name="VERIF")
+    return _maybe_pickled(Orbit([tle["i"], tle["raan"], tle["e"], tle["argp"], tle["M"], n], date, "TLE", "TEME", propagator,
+                                bstar=tle["bstar"], ndot=0.0, ndotdot=0.0, norad_id=25544, cospar_id="1998-067A",
+                                element_nb=999, revolutions=1234, name="VERIF"))
 
 
 def cart_orbit(el, date, propagator):
     from beyond.orbits import Orbit
 
-    return Orbit(go.cart_of(el), date, "cartesian", "EME2000", propagator)
+    return _maybe_pickled(Orbit(go.cart_of(el), date, "cartesian", "EME2000", propagator))
 
 
 def target_us(case):
@@ -262,7 +315,8 @@ def check_prop(case):
             Y = "GPS"  # epoch + timedelta is only lawful in a uniform scale (C03)
         X = Y  # the argument carries no label
     ref = run_prop(case, "UTC", "UTC", "UTC")
-    got = run_prop(case, X, Y, X2)
+    with cloned(case):
+        got = run_prop(case, X, Y, X2)
     labels = (X, Y) + ((X2,) if X2 else ())
     desc = f"{kind}: epoch {date_of(us, Y)}, propagate({'timedelta ' if case['arg'] == 'timedelta' else ''}{date_of(target_us(case), X)})"
     if len(got) != len(ref):
@@ -294,7 +348,7 @@ def check_prop(case):
         worst = max(worst, compare_states(f"{desc} [{k}]", g, r, dts, kind=f"{kind}-label-dependent", extra_pos=extra,
                                           extra_vel=extra_vel))
         same_instant(f"{desc} [{k}]", gdate, rdate, labels)
-    cls = [f"kind:{kind}", f"eop:{t3.cfg()}", f"X:{X}", f"Y:{Y}", f"arg:{case['arg']}"]
+    cls = [f"kind:{kind}", f"eop:{t3.cfg()}", f"X:{X}", f"Y:{Y}", f"arg:{case['arg']}"] + clone_classes(case)
     if straddle(us, (Y,)) or straddle(us + dt, (X,)):
         cls.append("labels-straddle-0h")
     if abs(dt) > US_DAY:
@@ -327,6 +381,7 @@ def check_frames(case):
     cart = go.cart_of(case["el"])
     out = {}
     for L in ("UTC", X):
+        _CLONE["how"] = case.get("clone", "none") if L != "UTC" else "none"
         d = date_of(us, L)
         sv = StateVector(cart, d, "cartesian", src)
         res = sv.copy(frame=dst)
@@ -386,7 +441,7 @@ def check_frames(case):
             else:
                 raise first
     same_instant(f"{src}->{dst}", gdate, rdate, (X,))
-    cls = [f"eop:{t3.cfg()}", f"X:{X}", f"{src}->{dst}"]
+    cls = [f"eop:{t3.cfg()}", f"X:{X}", f"{src}->{dst}"] + clone_classes(case)
     if straddle(us, (X,)):
         cls.append("labels-straddle-0h")
     if quantum:
@@ -459,7 +514,8 @@ def check_interp(case):
     if case["op"] == "iter" and inexact(X):
         X = "TT"  # the grid start + k * step is reading arithmetic: uniform scales only (C03)
     case = dict(case, off=_inside(case, X, labels), stop_shift=10 if inexact(X, *labels) else 0)
-    got = run_interp(case, labels, X)
+    with cloned(case):
+        got = run_interp(case, labels, X)
     ref = run_interp(case, ["UTC"] * len(labels), "UTC")
     desc = f"Ephem({len(labels)} pts every {case['step'] // US} s, labels {sorted(set(labels))}).{case['op']}({date_of(us + case['off'], X)}) {case['method']}/{case['order']}"
     if len(got) != len(ref):
@@ -502,7 +558,8 @@ def check_tle(case):
     us = case["us"]
     Y = lab(us, case["Y"])
     (r1, r2), rt = _tle_text(case, "UTC")
-    (g1, g2), gt = _tle_text(case, Y)
+    with cloned(case):
+        (g1, g2), gt = _tle_text(case, Y)
     what = f"Tle.from_orbit(epoch {date_of(us, Y)})"
     if g2 != r2:
         raise Violation("tle-line2", f"{what}: line 2 {g2!r} != {r2!r} (UTC-labelled epoch)")
@@ -677,7 +734,8 @@ def check_events(case):
     if inexact(X):
         X = "TAI"  # the grid start + k * step is reading arithmetic: uniform scales only (C03)
     ref = run_events(case, "UTC", "UTC", "UTC")
-    got = run_events(case, X, Y, X2)
+    with cloned(case):
+        got = run_events(case, X, Y, X2)
     what = f"events {case['listeners']} of a Kepler orbit, epoch {date_of(us, Y)}, iter from {date_of(us + 60 * US, X)}"
     if [e[0] for e in got] != [e[0] for e in ref]:
         raise Violation("events-differ", f"{what}: events {[e[0] for e in got]}, the all-UTC run gives {[e[0] for e in ref]}")
@@ -716,6 +774,7 @@ def check_utils(case):
     X = lab(tus, case["X"])
     out = {}
     for L in ("UTC", X):
+        _CLONE["how"] = case.get("clone", "none") if L != "UTC" else "none"
         d = date_of(tus, L)
         if op == "raan2ltan":
             out[L] = float(ltan.raan2ltan(d, case["raan"], case["type"]))
@@ -818,7 +877,8 @@ def check_man(case):
         zl[0] = "TT"
     case = dict(case, _zreal=zl)
     ref, rdate = run_man(case, "UTC", "UTC", ["UTC"] * len(zl))
-    got, gdate = run_man(case, X, Y, zl)
+    with cloned(case):
+        got, gdate = run_man(case, X, Y, zl)
     desc = (f"KeplerNum(rk4, 60 s) epoch {date_of(us, Y)}, maneuvers "
             f"{[(m['kind'], str(date_of(us + _man_off(m, z), z))) for m, z in zip(case['mans'], zl)]}, "
             f"propagate({date_of(us + case['dt'], X)})")
@@ -830,7 +890,7 @@ def check_man(case):
                            extra_pos=extra_v * case["dt"] / 1e6, extra_vel=extra_v + 1e-12)
     same_instant(desc, gdate, rdate, labels)
     near = any(min(m["off"] % MAN_STEP, MAN_STEP - m["off"] % MAN_STEP) <= 1 for m in case["mans"])
-    cls = [f"eop:{t3.cfg()}", f"X:{X}", f"Y:{Y}"] + sorted({f"Z:{z}" for z in zl}) + sorted({m["kind"] for m in case["mans"]})
+    cls = [f"eop:{t3.cfg()}", f"X:{X}", f"Y:{Y}"] + sorted({f"Z:{z}" for z in zl}) + sorted({m["kind"] for m in case["mans"]}) + clone_classes(case)
     if any(z != Y for z in zl):
         cls.append("maneuver-label-differs-from-epoch")
     if near:
@@ -905,7 +965,8 @@ def check_cw(case):
     if (X, Y) == ("UTC", "UTC") and (not zl or set(zl) == {"UTC"}):
         X = "TT"
     ref, rdate = run_cw(case, "UTC", "UTC", ["UTC"] * len(zl), offs, dt)
-    got, gdate = run_cw(case, X, Y, zl, offs, dt)
+    with cloned(case):
+        got, gdate = run_cw(case, X, Y, zl, offs, dt)
     desc = (f"ClohessyWiltshire(sma {case['sma']:.0f}, {case['ori']}) epoch {date_of(us, Y)}, maneuvers "
             f"{[(m['kind'], str(date_of(us + o, z))) for m, o, z in zip(case['mans'], offs, zl)]}, "
             f"propagate({date_of(us + dt, X)})")
@@ -968,6 +1029,7 @@ def check_jpl(case):
     X = lab(us, case["X"])
     out = {}
     for L in ("UTC", X):
+        _CLONE["how"] = case.get("clone", "none") if L != "UTC" else "none"
         d = date_of(us, L)
         if op == "get_orbit":
             res = jpl.get_orbit(case["body"], d)
@@ -1085,7 +1147,8 @@ def check_station_events(case):
         X = "TAI"  # the grid start + k * step is reading arithmetic: uniform scales only (C03)
     sta = _station_for(case)
     ref, nref = run_station_events(case, "UTC", "UTC", "UTC", sta)
-    got, ngot = run_station_events(case, X, Y, X2, sta)
+    with cloned(case):
+        got, ngot = run_station_events(case, X, Y, X2, sta)
     what = (f"{case['how']} of station {sta.name}: Kepler orbit epoch {date_of(us, Y)}, start {date_of(us + 60 * US, X)}, "
             f"stop labelled {X2}")
     if [e[0] for e in got] != [e[0] for e in ref] or ngot != nref:
@@ -1107,31 +1170,31 @@ def check_station_events(case):
 # ------------------------------------------------------------------ facets
 
 FACETS = [
-    Facet("sgp4", lambda s, t: prop_case(s, t, "sgp4"), check_prop, setup=setup,
+    Facet("sgp4", with_clone(lambda s, t: prop_case(s, t, "sgp4")), check_prop, setup=setup,
           rule="every case ((X, Y) != (UTC, UTC) by construction)", quick=(4, 150), thorough=(16, 900)),
-    Facet("sgp4beta", lambda s, t: prop_case(s, t, "sgp4beta"), check_prop, setup=setup,
+    Facet("sgp4beta", with_clone(lambda s, t: prop_case(s, t, "sgp4beta")), check_prop, setup=setup,
           rule="every case ((X, Y) != (UTC, UTC) by construction)", quick=(4, 100), thorough=(8, 1000)),
-    Facet("propagators", prop_case, check_prop, setup=setup,
+    Facet("propagators", with_clone(prop_case), check_prop, setup=setup,
           rule="every case ((X, Y) != (UTC, UTC) by construction)", quick=(8, 120), thorough=(32, 600)),
-    Facet("maneuvers", man_case, check_man, setup=setup,
+    Facet("maneuvers", with_clone(man_case), check_man, setup=setup,
           rule="some maneuver date is labelled differently from the epoch, or (X, Y) != (UTC, UTC)",
           quick=(8, 25), thorough=(16, 250)),
-    Facet("cw", cw_case, check_cw, setup=setup,
+    Facet("cw", with_clone(cw_case), check_cw, setup=setup,
           rule="every case (some label is not UTC by construction)", quick=(4, 150), thorough=(16, 1000)),
-    Facet("jpl", jpl_case, check_jpl, setup=setup_jpl,
+    Facet("jpl", with_clone(jpl_case), check_jpl, setup=setup_jpl,
           rule="every case (label is never UTC)", quick=(4, 100), thorough=(16, 800)),
-    Facet("station_events", station_events_case, check_station_events, setup=setup_station, shrink_quick=False,
+    Facet("station_events", with_clone(station_events_case), check_station_events, setup=setup_station, shrink_quick=False,
           rule="at least one AOS / LOS / MAX event in the all-UTC run", quick=(6, 4), thorough=(16, 25)),
-    Facet("frames", frame_case, check_frames, setup=setup,
+    Facet("frames", with_clone(frame_case), check_frames, setup=setup,
           rule="source frame differs from target frame", quick=(8, 300), thorough=(32, 1500)),
-    Facet("interp", interp_case, check_interp, setup=setup,
+    Facet("interp", with_clone(interp_case), check_interp, setup=setup,
           rule="some label is not UTC", quick=(8, 150), thorough=(16, 1200)),
-    Facet("tle_writer", tle_case, check_tle, setup=setup,
+    Facet("tle_writer", with_clone(tle_case), check_tle, setup=setup,
           rule="every case (epoch label is never UTC)", quick=(4, 300), thorough=(8, 2000)),
-    Facet("events", events_case, check_events, setup=setup,
+    Facet("events", with_clone(events_case), check_events, setup=setup,
           rule="every case ((X, Y) != (UTC, UTC) by construction)", quick=(6, 40), thorough=(16, 100), shrink_quick=False),
-    Facet("utils", utils_case, check_utils, setup=setup,
+    Facet("utils", with_clone(utils_case), check_utils, setup=setup,
           rule="every case (label is never UTC)", quick=(4, 250), thorough=(8, 1500)),
-    Facet("ccsds", ccsds_case, check_ccsds, setup=setup_ccsds,
+    Facet("ccsds", with_clone(ccsds_case), check_ccsds, setup=setup_ccsds,
           rule="every case (some date is not labelled UTC, or labels are mixed)", quick=(4, 250), thorough=(8, 1500)),
 ]
